@@ -61,7 +61,7 @@ DET = {
  'C05-5': (None, 'C03', '', 'quick', 'winding_order on rounded (shifted) coordinates: the C05 check alone passes; reported by the C03 check, where the ill-conditioned orientation / winding-order triples live'),
  'C02-5': (None, 'C02', '', 'thorough', 'missed by the quick tier (ring-start rotations are in the thorough tier)'),
  'C12-4': (None, 'C12', '', 'quick', 'interior_point (scan line / sweep) is not under contract'),
- 'C05-6': (True, 'C05', 'Verus obligation C05.V.triangle_signed_area (postconditions: value = half of the shoelace sum of the three sides; sign = sign of that sum), no-failing-input-found', 'quick', 'round 4; Verus unit c05_triangle was written in the same session (before the seed came back); the first run ended UNDECIDED because the seeded change moves the fold closure into the sibling method unsigned_area: the closure-typing hint was made position independent (`//@closure ?`), contracts unchanged; confirmed by running the unit on the patched tree'),
+ 'C05-6': (True, 'C05', 'Verus obligation C05.V.triangle_signed_area (postconditions: value = half of the shoelace sum of the three sides; sign = sign of that sum), no-failing-input-found', 'quick', 'round 4; Verus unit c05_triangle was written in the same session (before the seed came back); the first run ended UNDECIDED because the seeded change moves the fold closure into the sibling method unsigned_area: the closure-typing hint was made position independent (`//@closure ?`), contracts unchanged; confirmed by running the unit on the patched tree and by the batch run (in the full check the bounded K harness c05_k_rect_tri_collection_area, which contains a clockwise triangle, reports it with a failing input)'),
  'C12-6': (False, 'C12', '', 'quick', 'round 4; Polygon::closest_point is not under contract (Chain<slice::Iter, Once> adaptor: outside Verus); the K harness c12_k_polygon_with_hole_nearest_ring written for it does not finish in 600 s in CBMC and is not registered'),
  'C07-6': (True, 'C07', 'c07_k_line_linestring_last_vertex (assertion Euclidean.distance(&line, &down) == 4.0 fails; 126 s)', 'quick', 'round 4; missed by the first run (no harness for Line x LineString; the fold over `lines()` is an adaptor chain outside Verus); bounded harness on literal shapes added afterwards, run on the patched tree through lib/kshow.py'),
  'C06-4': (None, 'C06', '', 'quick', 'add_ring itself is abstract in the Verus unit (and invisible to exact arithmetic: a rounding threshold); caught by the f64 scaling harness'),
